@@ -164,6 +164,69 @@ def _own_nodes(fn: ast.AST):
         stack.extend(ast.iter_child_nodes(n))
 
 
+_PURE_CALLS = {"len", "isinstance", "type", "tuple", "frozenset", "min", "max", "sorted", "bool", "int", "str", "repr", "id", "hasattr", "getattr", "callable", "issubclass"}
+
+
+def _pure_read(e: ast.AST) -> bool:
+    """an expression that only reads: names, attributes, subscripts, comparisons, boolean and arithmetic
+    operators, and the handful of builtins that do not advance or change their argument (`next` only of a
+    fresh `iter(..)`).  Evaluating it twice in a row gives the same value both times."""
+    for n in ast.walk(e):
+        if isinstance(n, ast.Call):
+            f = n.func
+            if isinstance(f, ast.Name) and f.id in _PURE_CALLS and not n.keywords:
+                continue
+            if isinstance(f, ast.Name) and f.id == "next" and n.args and isinstance(n.args[0], ast.Call) \
+                    and isinstance(n.args[0].func, ast.Name) and n.args[0].func.id == "iter" and len(n.args[0].args) == 1:
+                continue
+            if isinstance(f, ast.Name) and f.id == "iter" and len(n.args) == 1:
+                continue
+            return False
+        if isinstance(n, (ast.NamedExpr, ast.Yield, ast.YieldFrom, ast.Await, ast.Lambda, ast.ListComp, ast.SetComp,
+                          ast.DictComp, ast.GeneratorExp, ast.Starred)):
+            return False
+    return True
+
+
+def _fold_to_expression(fn: ast.FunctionDef) -> bool:
+    """`t = <read>; ...; return <expr over t>`  ->  `return <expr>` with the temporaries substituted, so that a
+    helper used as an operand of `or` / `and` / a conditional expression can be read through where it stands.
+    Only when every temporary is bound once to an expression that only reads."""
+    body = list(fn.body)
+    if body and isinstance(body[0], ast.Expr) and isinstance(body[0].value, ast.Constant) and isinstance(body[0].value.value, str):
+        body = body[1:]
+    if len(body) < 2 or len(body) > 4 or not isinstance(body[-1], ast.Return) or body[-1].value is None:
+        return False
+    params = {a.arg for a in fn.args.args + fn.args.kwonlyargs}
+    env: Dict[str, ast.expr] = {}
+    for st in body[:-1]:
+        if isinstance(st, ast.AnnAssign) and st.value is not None and isinstance(st.target, ast.Name):
+            tgt, val = st.target, st.value
+        elif isinstance(st, ast.Assign) and len(st.targets) == 1 and isinstance(st.targets[0], ast.Name):
+            tgt, val = st.targets[0], st.value
+        else:
+            return False
+        if tgt.id in params or tgt.id in env or not _pure_read(val):
+            return False
+        env[tgt.id] = _subst_names(val, env)
+    ret = _subst_names(body[-1].value, env)
+    fn.body = [ast.copy_location(ast.Return(value=ret), body[-1])]
+    return True
+
+
+def _subst_names(e: ast.expr, env: Dict[str, ast.expr]) -> ast.expr:
+    if not env:
+        return copy.deepcopy(e)
+
+    class _S(ast.NodeTransformer):
+        def visit_Name(self, n: ast.Name):
+            if isinstance(n.ctx, ast.Load) and n.id in env:
+                return copy.deepcopy(env[n.id])
+            return n
+
+    return _S().visit(copy.deepcopy(e))
+
+
 def _classify(fn: ast.FunctionDef) -> Optional[str]:
     if isinstance(fn, ast.AsyncFunctionDef) or any(not (isinstance(d, ast.Name) and d.id == "staticmethod") for d in fn.decorator_list):
         return None
@@ -1114,6 +1177,17 @@ def inline_helpers(trees: Dict[str, ast.Module], anchors: Optional[Set[str]] = N
                 for _round in range(3):
                     if _inline_in_function(outer, local, None) == 0:
                         break
+                # a closure still called where statements cannot be placed (an operand of `or`): as one expression
+                again = False
+                for (_c, hname), h in local.items():
+                    if h.kind == "stmts" and any(isinstance(x, ast.Call) and isinstance(x.func, ast.Name) and x.func.id == hname
+                                                 for x in ast.walk(outer)) and _fold_to_expression(h.node):
+                        h.kind = "expr"
+                        again = True
+                if again:
+                    for _round in range(3):
+                        if _inline_in_function(outer, local, None) == 0:
+                            break
                 for (_c, hname), h in local.items():
                     if not h.inlined:
                         continue
@@ -1154,7 +1228,104 @@ def inline_helpers(trees: Dict[str, ast.Module], anchors: Optional[Set[str]] = N
             notes.append(f"{new_home[hname]}: new helper {hname} -> {h.inlined} site(s), dissolved")
         else:
             notes.append(f"{new_home[hname]}: new helper {hname} -> {h.inlined} site(s), kept ({refs} other reference(s))")
+    notes += read_through_stable_fields(trees)
     return notes
+
+
+def read_through_stable_fields(trees: Dict[str, ast.Module]) -> List[str]:
+    """`v = b.F` for a dataclass field F that nothing in the package ever stores to (no `x.F = ..`, no
+    setattr(.., "F", ..), no property / method of that name): `v` and `b.F` are the same object for as long
+    as `b` is not re-bound, so a local bound once to it (outside any loop, `b` a parameter or a local that is
+    itself bound once outside any loop) is read as `b.F`.  Hoisting an attribute into a local is not something
+    a rule should see."""
+    fields: Set[str] = set()
+    unstable: Set[str] = set()
+    for t in trees.values():
+        for n in ast.walk(t):
+            if isinstance(n, ast.ClassDef):
+                for st in n.body:
+                    if isinstance(st, ast.AnnAssign) and isinstance(st.target, ast.Name):
+                        fields.add(st.target.id)
+                    elif isinstance(st, _FUNC):
+                        unstable.add(st.name)
+            elif isinstance(n, ast.Attribute) and isinstance(n.ctx, (ast.Store, ast.Del)):
+                unstable.add(n.attr)
+            elif isinstance(n, ast.Call) and (isinstance(n.func, ast.Name) and n.func.id in ("setattr", "delattr") or isinstance(n.func, ast.Attribute) and n.func.attr in ("__setattr__", "__delattr__")):
+                for a in n.args:
+                    if isinstance(a, ast.Constant) and isinstance(a.value, str):
+                        unstable.add(a.value)
+                    elif not isinstance(a, (ast.Name, ast.Attribute)):
+                        pass
+                # a computed attribute name: nothing is stable
+                if len(n.args) >= 2 and not any(isinstance(a, ast.Constant) and isinstance(a.value, str) for a in n.args[:2]):
+                    return []
+    stable = fields - unstable
+    if not stable:
+        return []
+    n_sites = 0
+    for t in trees.values():
+        for fn in [x for x in ast.walk(t) if isinstance(x, _FUNC)]:
+            if any(isinstance(x, (ast.Global, ast.Nonlocal)) for x in _own_nodes(fn)):
+                continue
+            for _round in range(4):
+                stores: Dict[str, int] = {}
+                own = list(_own_nodes(fn))
+                decls = {id(x.target) for x in own if isinstance(x, ast.AnnAssign) and x.value is None}
+                for x in own:
+                    if isinstance(x, ast.Name) and isinstance(x.ctx, (ast.Store, ast.Del)) and id(x) not in decls:
+                        stores[x.id] = stores.get(x.id, 0) + 1
+                nested: Set[str] = set()
+                for x in ast.walk(fn):
+                    if x is not fn and isinstance(x, _FUNC + (ast.Lambda,)):
+                        nested |= {y.id for y in ast.walk(x) if isinstance(y, ast.Name) and isinstance(y.ctx, ast.Store)}
+                params = {a.arg for a in fn.args.args + fn.args.kwonlyargs + fn.args.posonlyargs}
+                once: Dict[str, Tuple[ast.stmt, list]] = {}
+
+                def scan(stmts, in_loop):
+                    for st in stmts:
+                        tgt = None
+                        if isinstance(st, ast.Assign) and len(st.targets) == 1 and isinstance(st.targets[0], ast.Name):
+                            tgt = st.targets[0].id
+                        elif isinstance(st, ast.AnnAssign) and st.value is not None and isinstance(st.target, ast.Name):
+                            tgt = st.target.id
+                        if tgt is not None and not in_loop and stores.get(tgt) == 1 and tgt not in params and tgt not in nested:
+                            once[tgt] = (st, stmts)
+                        if isinstance(st, _FUNC + (ast.ClassDef,)):
+                            continue
+                        for fld in ("body", "orelse", "finalbody"):
+                            sub = getattr(st, fld, None)
+                            if isinstance(sub, list) and sub and isinstance(sub[0], ast.stmt):
+                                scan(sub, in_loop or isinstance(st, (ast.For, ast.While, ast.AsyncFor)))
+                        for h in getattr(st, "handlers", []) or []:
+                            scan(h.body, in_loop)
+
+                scan(fn.body, False)
+                hit = False
+                for v, (st, holder) in once.items():
+                    val = st.value
+                    if not (isinstance(val, ast.Attribute) and val.attr in stable and isinstance(val.value, ast.Name)):
+                        continue
+                    b = val.value.id
+                    if not (b in params and stores.get(b, 0) == 0 or b in once) or b in nested:
+                        continue
+                    for x in ast.walk(fn):
+                        for fld, sub in ast.iter_fields(x):
+                            if isinstance(sub, ast.Name) and sub.id == v and isinstance(sub.ctx, ast.Load):
+                                setattr(x, fld, ast.copy_location(ast.Attribute(value=ast.Name(id=b, ctx=ast.Load()), attr=val.attr, ctx=ast.Load()), sub))
+                            elif isinstance(sub, list):
+                                for k_, y in enumerate(sub):
+                                    if isinstance(y, ast.Name) and y.id == v and isinstance(y.ctx, ast.Load):
+                                        sub[k_] = ast.copy_location(ast.Attribute(value=ast.Name(id=b, ctx=ast.Load()), attr=val.attr, ctx=ast.Load()), y)
+                    holder.remove(st)
+                    if not holder:
+                        holder.append(ast.copy_location(ast.Pass(), st))
+                    ast.fix_missing_locations(fn)
+                    n_sites += 1
+                    hit = True
+                    break
+                if not hit:
+                    break
+    return [f"stable fields {sorted(stable)}: {n_sites} local alias(es) read as the field"] if n_sites else []
 
 
 def _atom_table(v: ast.AST) -> bool:
@@ -1346,8 +1517,18 @@ def expand_generator_helpers(trees: Dict[str, ast.Module], anchors: Set[str]) ->
                 count[n.name] = count.get(n.name, 0) + 1
     gens: Dict[str, Tuple[str, ast.FunctionDef]] = {}
     gen_cls: Dict[str, Optional[ast.ClassDef]] = {}
+    closure_home: Dict[str, ast.AST] = {}
     for mod, t in trees.items():
         cands_ = [(fn, None) for fn in t.body] + [(fn, c_) for c_ in t.body if isinstance(c_, ast.ClassDef) for fn in c_.body]
+        # a local generator (a closure new to the tree): its sites are in the function that defines it, whose
+        # variables it reads under the same names
+        for outer_ in ast.walk(t):
+            if isinstance(outer_, _FUNC):
+                for fn in outer_.body:
+                    if isinstance(fn, ast.FunctionDef) and base and fn.name not in base and not fn.args.args and not fn.args.kwonlyargs \
+                            and not (_stored_names(fn) & (_names_used(outer_) - _names_used(fn))):
+                        cands_.append((fn, None))
+                        closure_home[fn.name] = outer_
         for fn, cls_ in cands_:
             if not isinstance(fn, ast.FunctionDef) or count.get(fn.name) != 1 or fn.name in wsn:
                 continue
@@ -1492,7 +1673,7 @@ def expand_generator_helpers(trees: Dict[str, ast.Module], anchors: Set[str]) ->
         home, g = gens[nm]
         refs = sum(1 for t2 in trees.values() for x in ast.walk(t2) if (isinstance(x, ast.Name) and x.id == nm) or (isinstance(x, ast.Attribute) and x.attr == nm) or (isinstance(x, ast.alias) and x.name == nm))
         if refs == 0:
-            for holder_ in [trees[home].body] + [c_.body for c_ in trees[home].body if isinstance(c_, ast.ClassDef)]:
+            for holder_ in [trees[home].body] + [c_.body for c_ in trees[home].body if isinstance(c_, ast.ClassDef)] + ([closure_home[nm].body] if nm in closure_home else []):
                 if g in holder_:
                     holder_.remove(g)
                     if not holder_:
